@@ -88,6 +88,7 @@ func WriteNdJson(env *dsl.Environment, options packaging.CppCodegenOptions) erro
 	}
 
 	unionsBySyntax := make(map[string]*dsl.GeneralizedType)
+	var distinctUnions []*dsl.GeneralizedType
 	// each referenced definition is visited once (the cost would otherwise be exponential in the
 	// depth of records that hold the same record several times)
 	visitedDefinitions := make(map[dsl.TypeDefinition]bool)
@@ -106,10 +107,23 @@ func WriteNdJson(env *dsl.Environment, options packaging.CppCodegenOptions) erro
 				scalarType := dsl.NormalizeGenericTypeParameters(t.ToScalar()).(*dsl.GeneralizedType)
 				typeSyntax := common.TypeSyntax(scalarType)
 				if _, ok := unionsBySyntax[typeSyntax]; !ok {
-					if len(unionsBySyntax) == 0 {
-						w.WriteStringln("NLOHMANN_JSON_NAMESPACE_BEGIN\n")
+					// Two spellings can still be the same C++ type when an alias is used *inside* a case
+					// (`Label->int` and `string->int` with `Label: string`): one specialization only.
+					sameType := false
+					for _, seen := range distinctUnions {
+						if dsl.TypesEqual(seen, scalarType) {
+							sameType = true
+							break
+						}
 					}
 					unionsBySyntax[typeSyntax] = t
+					if sameType {
+						break
+					}
+					if len(distinctUnions) == 0 {
+						w.WriteStringln("NLOHMANN_JSON_NAMESPACE_BEGIN\n")
+					}
+					distinctUnions = append(distinctUnions, scalarType)
 					writeUnionConverters(w, scalarType)
 				}
 			}
